@@ -51,7 +51,7 @@ func corpus() []corpusCase {
 	listOf := func(t string, k blockKind, labels []string, nested *specNode) *specNode {
 		return &specNode{Blocks: []blockDef{{t, k, labels, nested}}}
 	}
-	return []corpusCase{
+	cs := []corpusCase{
 		{"readme", listOf("a", kList, nil, leaf("p")), []gItem{
 			blk("a", nil, at("p", `"static block 1"`)),
 			dyn("a", `["a", "b", "c"]`, "it", nil, at("p", `"dynamic block ${«it».value}"`)),
@@ -109,6 +109,8 @@ func corpus() []corpusCase {
 			dyn("b", "tp", "", nil, at("p", `"${«b».key}"`)),
 			dyn("c", "o_mix", "each", []string{"«each».key"}, at("p", "«each».value"))}},
 	}
+	// appended last so that the indices of the cases above stay what they were
+	return append(cs, collideCorpus()...)
 }
 
 // ---- one case ---------------------------------------------------------------------------------------------
@@ -138,8 +140,16 @@ func caseFor(seed uint64, corp bool, idx int) *genCase {
 		} {
 			full[k] = v
 		}
+		for k, v := range collideCorpusVars(cc.Name) {
+			full[k] = v
+		}
 		ectx = &hcl.EvalContext{Variables: full, Functions: hv.HarnessFuncs}
 		return &genCase{Spec: cc.Spec, Items: cc.Items, ECtx: ectx, DCtx: ectx, Feat: map[string]int{"corpus": 1}, Note: cc.Name}
+	}
+	// the iterator-name-collision stream (collide.go) has its own random stream, so the
+	// cases of the general stream are what they were before it existed
+	if rc := hv.NewRng(seed, uint64(190000+idx)); rc.Chance(0.10) {
+		return generateCollide(rc)
 	}
 	return generate(r)
 }
@@ -201,7 +211,7 @@ func (rn *runner) one(seed uint64, corp bool, idx int) {
 		mode = 2
 		rep.Hist("mode:skipped(outside value universe)")
 	}
-	rn.cf.Add(fmt.Sprintf("mkXCase %s\n  %s\n  %s\n  %s\n  %d\n  %s\n  %s", c.Spec.coq(), body, ectx, dctx, mode, obsS, hv.CoqList(twos)))
+	rn.cf.Add(fmt.Sprintf("mkXCase %s\n  %s\n  %s\n  %s\n  %d\n  %s\n  %s\n  %s", c.Spec.coq(), body, ectx, dctx, mode, obsS, hv.CoqList(twos), coqReportedVars(f.Body, c.Spec.spec())))
 	rep.Idx(input)
 	nblocks := strings.Count(obs.shape(false), `"`) // rough: labelled blocks
 	_ = nblocks
@@ -241,7 +251,7 @@ func run(cfg *hv.RunCfg) error {
 	cf := &hv.CaseFile{Dir: cfg.Out, Name: "c18cases",
 		Imports: "From Coq Require Import QArith String.\nFrom HclV Require Import Base.Prelude Cty.Values Cty.Convert Cty.Ops Eval.Impl Eval.Funcs Dyn.Expand Dyn.Unroll Dyn.ExpandCheck.",
 		Ctype:   "xcase", Checker: "check_expand_cases",
-		Extras: [][2]string{{"skipped", "skipped_expand_cases"}, {"unroll_bad", "check_unroll_cases"}, {"unroll_applicable", "unroll_applicable_cases"}}}
+		Extras: [][2]string{{"skipped", "skipped_expand_cases"}, {"unroll_bad", "check_unroll_cases"}, {"unroll_applicable", "unroll_applicable_cases"}, {"vars_bad", "check_vars_cases"}, {"vars_applicable", "vars_applicable_cases"}}}
 	rn := &runner{rep, cf}
 	if cfg.Replay != "" {
 		b, err := os.ReadFile(cfg.Replay)
